@@ -27,6 +27,9 @@ Sub-oracles (K = 10; rtol, atol are the tolerances given to the solver)
                  is not flagged genuine, False when it is
   cut-slower     16 slower walls all have T- <= TMaxLowT and T+ <= TMaxHighT (and are admissible)
   cut-slowest    range of the low-T phase reached at a detonation v*: slowestDeton() == v* + 0.01 (documented)
+  slowest-all-beyond / slowest-high-narrow
+                 the two phases have different tabulated ranges: low-T range ends below T-(vw=1) -> 1 (documented);
+                 only the high-T range ends below T-(vw=1) (above Tn) -> vJ, as without a cut
                  within the same kind of bound; faster walls up to 0.99 have T- inside the range
   nocut          no cut inside the window: fastestDeflag() == vJ and slowestDeton() == vJ
 Both WallGo.Hydrodynamics (all EOS families) and WallGo.HydrodynamicsTemplateModel (template-form EOS; it has
@@ -165,7 +168,7 @@ def st_jouguet(draw, tier):
 @st.composite
 def st_cut(draw, tier):
     spec = draw(Z.st_eos(families=CUT_FAMILIES, weights={"bag": 2, "template": 3, "twostep": 3, "cubic": 2}))
-    side = draw(st.sampled_from(["deflag", "deflag", "deflag", "deton", "none"]))
+    side = draw(st.sampled_from(["deflag", "deflag", "deflag", "deton", "deton", "none"]))
     phase = "low" if side == "deton" else draw(st.sampled_from(["low", "high", "both"])) if side == "deflag" else "none"
     return {"kind": "cut", "eos": spec, "tol": draw(Z.st_tolerances()), "side": side, "phase": phase,
             "u": draw(st.floats(0.0, 1.0)), "u2": draw(st.floats(0.0, 1.0)),
@@ -653,6 +656,56 @@ def check_cut(case, v):
         lo, hi = vJ + CUT_MARGIN, 0.98
         if hi - lo < 0.01:
             v.label("cut:window-too-narrow")
+            return v
+        mode = "cut" if case["u2"] >= 0.4 else ("all-beyond" if case["u2"] < 0.2 else "high-narrow")
+        if mode != "cut":
+            # the two phases have DIFFERENT tabulated ranges and the fastest detonation decides:
+            #   all-beyond : the low-T range ends below T-(vw=1): no detonation is admissible, documented answer 1
+            #   high-narrow: only the HIGH-T range ends below T-(vw=1) (above Tn): T+ = Tn is inside it for every
+            #                detonation and the low-T range is never reached, so the answer is vJ as without cut
+            ref1 = R.detonation(eos, Tn, 1.0 - 1e-6)
+            refj = R.detonation(eos, Tn, vJ + CUT_MARGIN)
+            if not (ref1.ok and refj.ok):
+                why = ref1.reason if not ref1.ok else refj.reason
+                v.label(f"ref:{why}")
+                return v.discarded(f"reference:{(why or '?').split(':')[0]}")
+            if not (Tn * 1.02 < ref1.Tm < refj.Tm):
+                v.label(f"{mode}:T-(1)-too-close-to-Tn")
+                return v
+            f = 0.3 + 0.6 * case["u"]
+            Tcut = Tn + f * (ref1.Tm - Tn)
+            if mode == "all-beyond":
+                rg = _ranges(meta, low_hi=Tcut / Tn, genuine=case["genuine"], extrapolate=case["extrapolate"])
+            else:
+                if ctx0.fam == "cubic" and not refj.Tm < meta["T_valid"][1]:
+                    v.label("high-narrow:cubic-natural-cut")
+                    return v
+                rg = _ranges(meta, high_hi=Tcut / Tn, genuine=case["genuine"], extrapolate=case["extrapolate"])
+            if rg is None:
+                v.label("cut:beyond-natural-end")
+                return v
+            ctx = setup(case, v, dict(spec, ranges=rg))
+            try:
+                hyd, _, _, vJ2 = ctx.make_solver()
+                vs = float(hyd.slowestDeton())
+            except WallGoError as exc:
+                v.label(f"outcome:WallGoError/{mode}")
+                v.info["error"] = str(exc)[:160]
+                return v
+            v.checked(f"slowest-{mode}")
+            v.nontrivial = True
+            v.label(f"deton-mode:{mode}")
+            want = 1.0 if mode == "all-beyond" else vJ2
+            tolv = K * (atol + rtol * 1.0)
+            if not abs(vs - want) <= tolv:
+                what = ("the low-T range ends below T-(vw=1): no detonation is admissible (documented answer 1)"
+                        if mode == "all-beyond" else
+                        "only the high-T range ends below T-(vw=1); T+ = Tn is inside it and the low-T range is never reached "
+                        "(answer vJ as without a cut)")
+                v.fail(f"slowest-{mode}", cls0,
+                       f"{what}: slowestDeton() = {vs:.10g}, expected {want:.10g}; T-(1) = {ref1.Tm:.8g}, "
+                       f"T-(vJ+0.01) = {refj.Tm:.8g}, range end {Tcut:.8g}, Tn = {Tn:.8g}",
+                       slowest=vs, Tcut=Tcut, Tm1=ref1.Tm)
             return v
         vstar = lo + case["u"] * (hi - lo)
         refd = R.detonation(eos, Tn, vstar)
